@@ -57,6 +57,7 @@ def enabled(enq_names):
             ops.append('poisonq')
         if dlv == acc and not closed and not dead:
             ops.append('call')
+            ops.append('pollempty')     # a non-blocking look at a live worker with nothing outstanding: "nothing yet", not "the end"
         if closed or dead:
             ops.append('drain')
         return ops
@@ -115,6 +116,9 @@ def build_script(kind, cfg, hist, target):
             sc.append({'op': 'call', 'var': 'w', 'method': 'close', 'h': op})
         elif op == 'wait':
             sc.append({'op': 'call', 'var': 'w', 'method': 'wait', 'args': [10], 'h': op})
+        elif op == 'pollempty':
+            sc.append({'op': 'call', 'var': 'w', 'method': 'next_result', 'kwargs': {'block': False}, 'timeout': 6, 'h': 'pollempty'})
+            sc.append({'op': 'call', 'var': 'w', 'method': 'next_result', 'kwargs': {'timeout': 0.05}, 'timeout': 6, 'h': 'pollempty'})
         elif op == 'call':
             sc.append({'op': 'call', 'var': 'w', 'method': 'call', 'args': ENQ['ez'][0], 'kwargs': ENQ['ez'][1], 'timeout': 6, 'h': op})
         elif op == 'drain':
@@ -202,6 +206,9 @@ def judge(cfg, hist, script, obs):
                 if st.get('exc') != 'Empty':
                     return [('stream-does-not-end', st)]
                 dead = True
+        elif h == 'pollempty':
+            if st.get('exc') != 'Empty':
+                return [('poll-of-a-live-idle-worker-does-not-raise-Empty', st)]
         elif h == 'close':
             closed = True
         elif h in ('wait', 'final-wait'):
@@ -236,7 +243,7 @@ def judge(cfg, hist, script, obs):
 
 
 def run(ctx):
-    ctx.rule = ('history = sequence over {5 enqueue variants, next_result, close, wait, call, drain, die (target raises, parent drains), dieq (target raises, parent makes no call), poisonq (the killing input is queued, the parent carries on at once)}; all histories up to the full depth, then '
+    ctx.rule = ('history = sequence over {5 enqueue variants, next_result, close, wait, call, drain, die (target raises, parent drains), dieq (target raises, parent makes no call), poisonq (the killing input is queued, the parent carries on at once), pollempty (non-blocking / timed-out read of a live idle worker)}; all histories up to the full depth, then '
                 'extended while the abstract state (outstanding, delivered, closed, dead) is new; x default configurations x {PT, PP, PR} x '
                 '{echo, mutating echo}; every history runs on a fresh real worker and ends with wait/drain/result/enqueue-after-death checks')
     quick = ctx.quick
